@@ -5,6 +5,7 @@ import (
 	"fmt"
 	"os"
 	"path/filepath"
+	"time"
 
 	"github.com/cockroachdb/pebble/v2/vfs"
 
@@ -51,8 +52,8 @@ func StdValidator(i int, stake uint64, committees ...uint64) *fsm.Validator {
 type SelfRC struct{ N *CNode }
 
 func (r *SelfRC) Publish(uint64, *lib.RootChainInfo) {}
-func (r *SelfRC) ChainIds() []uint64               { return nil }
-func (r *SelfRC) GetHeight(uint64) uint64          { return r.N.C.FSM.Height() }
+func (r *SelfRC) ChainIds() []uint64                 { return nil }
+func (r *SelfRC) GetHeight(uint64) uint64            { return r.N.C.FSM.Height() }
 func (r *SelfRC) GetRootChainInfo(rootChainId, chainId uint64) (*lib.RootChainInfo, lib.ErrorI) {
 	return r.N.C.FSM.LoadRootChainInfo(chainId, 0)
 }
@@ -130,7 +131,7 @@ func Logger() lib.LoggerI {
 
 // CNode is a real controller.Controller over a real in-memory store.
 type CNode struct {
-	FS      vfs.FS      // pebble file system held by the harness (nil: store.NewStoreInMemory)
+	FS      vfs.FS // pebble file system held by the harness (nil: store.NewStoreInMemory)
 	Genesis *fsm.GenesisState
 	Tweak   func(*lib.Config)
 	BC      *store.VerifBlockCache // this node's "process-wide" block cache (each node simulates its own process)
@@ -243,7 +244,9 @@ type Proposal struct {
 	Height        uint64
 }
 
-func NoEvidence() *bft.ByzantineEvidence { return &bft.ByzantineEvidence{DSE: bft.DoubleSignEvidences{}} }
+func NoEvidence() *bft.ByzantineEvidence {
+	return &bft.ByzantineEvidence{DSE: bft.DoubleSignEvidences{}}
+}
 
 // Enter makes this node the "current process": installs its block cache. Every harness must call it
 // (directly or through Propose/Deliver/Validate) before touching the node.
@@ -253,6 +256,29 @@ func (n *CNode) Enter() { store.VerifSwapBlockCache(n.BC) }
 func (n *CNode) Restart() { n.BC = store.VerifNewBlockCache(); n.Enter() }
 
 // Validate runs the real replica-side proposal validation.
+// ApproveGov puts every governance transaction (parameter change, DAO transfer) of txs on the node's approve list
+// (proposals.json in its data directory) and opens the proposal-vote window, as an operator who votes yes would.
+func (n *CNode) ApproveGov(txs [][]byte) {
+	props := make(fsm.GovProposals)
+	_ = props.NewFromFile(n.C.Config.DataDirPath)
+	for _, bz := range txs {
+		tx := new(lib.Transaction)
+		if lib.Unmarshal(bz, tx) != nil {
+			continue
+		}
+		if tx.MessageType != fsm.MessageChangeParameterName && tx.MessageType != fsm.MessageDAOTransferName {
+			continue
+		}
+		js, err := json.Marshal(tx)
+		if err != nil {
+			continue
+		}
+		_ = props.Add(js, true)
+	}
+	_ = props.SaveToFile(n.C.Config.DataDirPath)
+	n.C.Consensus.VerifSetProposalVoteDeadline(time.Now().Add(time.Hour).UnixMilli())
+}
+
 func (n *CNode) Validate(p *Proposal, qc *lib.QuorumCertificate) lib.ErrorI {
 	n.Enter()
 	_, err := n.C.ValidateProposal(p.RCBuildHeight, qc, NoEvidence())
